@@ -76,10 +76,16 @@ def dec(v):
 
 def freeze(o, depth=0):
     """Canonical deep snapshot (hashable, comparable with ==)."""
+    # library objects are observed through their public API, so that a hidden (correctly
+    # invalidated) cache attribute is not mistaken for a change of the object's value
     if isinstance(o, Angle):
-        return ("Angle", repr(o._deg), repr(o._tol))
+        return ("Angle", repr(o()), repr(o.get_tolerance()))
     if isinstance(o, Epoch):
-        return ("Epoch", repr(o._jde))
+        return ("Epoch", repr(o.jde()))
+    if isinstance(o, Interpolation):
+        return ("Interpolation", repr(o), repr(o.get_tolerance()))
+    if isinstance(o, (CurveFitting, Earth, Ellipsoid)):
+        return (type(o).__name__, repr(o))
     if isinstance(o, float):
         return ("f", repr(o))
     if isinstance(o, (bool, int, str, type(None), complex)):
@@ -273,6 +279,12 @@ def minor_args():
 
 
 SELF_MINOR = minor_args().map(lambda a: {"$o": "Minor", "a": a})
+# tables used only to "warm" an object before it is re-loaded through set(): degenerate ones too
+WARM_FIT = st.one_of(fit_tables(), st.builds(lambda x, ys: [[x] * len(ys), ys], st.floats(-100, 100),
+                                             st.lists(st.floats(-10, 10), min_size=3, max_size=5)),
+                     st.builds(lambda x, ys: [[x, x + 1.0] * 2, ys], st.floats(-100, 100),
+                               st.lists(st.floats(-10, 10), min_size=4, max_size=4))
+                     ).map(lambda t: {"$o": "CurveFitting", "a": t})
 LATNUM = st.one_of(A_LAT, st.floats(-90, 90), st.integers(-90, 90))
 LONNUM = st.one_of(A_ANY, st.floats(-180, 180), st.integers(-180, 180))
 
